@@ -115,3 +115,69 @@ for fn in ("c13_stat_to_attr", "c13_attr_to_stat_roundtrip", "c13_setattr_in_to_
     reg("harness/real/abi__c13_conv.rs", fn, ["C13"], unwindset_ioerr=False, timeout=300,
         what="conversion preserves every wire-representable field", bounds="all field values symbolic (full width)",
         functions=["Attr::with_flags", "From<Attr> for stat64", "From<SetattrIn> for stat64", "From<statvfs64> for Kstatfs", "FileLock conversions"])
+
+
+# ============================================================================ opcode family (model overlay)
+MSUP = ["harness/model/srvsync__support.rs", "harness/model/GEN:srvsync__koff.rs"]
+OPS_A = "harness/model/srvsync__ops_a.rs"
+SRV_FUNCS = ["api::server::sync_io::Server::<handler>", "SrvContext::{reply_ok,do_reply_error,handle_attr_result}",
+             "Context::from(&InHeader)", "impl FileSystem for Arc<FS> (forwarding)", "encode_io_error_kind",
+             "ByteValued::as_slice of the reply structures"]
+SRV_STUBS = [STUB_TC, STUB_FMT, "scripted FileSystem `SymFs` (every trait method implemented; records arguments, returns the scripted answer)",
+             "ghost /dev/fuse: write(2)/writev(2) accepted whole or refused (concrete per instance)"]
+PROP_OF = {"c01": "C01", "c02": "C02", "c03": "C03"}
+QUICK_OPS = {"getattr", "setlkw", "open", "release", "statfs", "getlk"}
+
+
+def reg_op(file, mod, variant, s_desc, quick=False, timeout=420, **kw):
+    prop = PROP_OF[variant[:3]]
+    stubs = kw.pop("stubs", SRV_STUBS)
+    geometry = {"": "request exactly the opcode's structure, ample reply buffer", "_long": "9 surplus request bytes, reply buffer exactly fits",
+                "_trunc": "request one byte short", "_nospace": "reply buffer one byte short", "_tiny": "reply buffer 15 bytes",
+                "_zero": "reply buffer 0 bytes", "_devfail": "device refuses the write"}.get(variant[3:], variant[3:])
+    reg(file, "%s::%s" % (mod, variant), [prop], tier="quick" if quick else "thorough", flavour="model", timeout=timeout,
+        support=MSUP, cost=2,
+        what="%s handler, %s assertions; %s" % (mod, prop, geometry),
+        bounds="all header fields (len, unique, nodeid, uid, gid, pid) and all %s symbolic; filesystem answer symbolic (errno 1..4095, 9 non-OS kinds, all result fields) for C01/C03, plain success for C02; buffer lengths concrete per instance; unwind 16" % s_desc,
+        functions=SRV_FUNCS, stubs=stubs,
+        assumptions=["handler entered directly with an arbitrary decoded InHeader (handle_message's preamble/dispatch is covered by the dispatcher harnesses)"],
+        role="%s:%s" % (mod, prop), **kw)
+
+
+STD_VARIANTS = ["c01", "c02", "c03", "c01_long", "c01_trunc", "c01_nospace", "c01_tiny", "c01_zero", "c01_devfail"]
+for op in ["getattr", "setattr", "open", "opendir", "statfs", "release", "releasedir", "fsync", "fsyncdir", "flush", "getlk",
+           "setlk", "setlkw", "access", "bmap", "poll", "fallocate", "lseek"]:
+    for v in STD_VARIANTS:
+        q = (op in QUICK_OPS and v in ("c01", "c02", "c03")) or (op == "getattr")
+        reg_op(OPS_A, op, v, "request-structure bytes", quick=q)
+for v in ["c01", "c02", "c01_trunc", "c01_long"]:
+    reg_op(OPS_A, "forget_h", v, "body bytes", quick=v in ("c01", "c02"))
+for v in ["interrupt_c01", "interrupt_c02", "destroy_c01", "destroy_c01_devfail", "destroy_c02", "destroy_c03",
+          "notify_reply_c01", "notify_reply_c02", "notify_reply_c03"]:
+    prop = "C0" + v.split("_c0")[1][0]
+    reg(OPS_A, "misc_h::" + v, [prop], tier="thorough", flavour="model", timeout=420, support=MSUP, cost=2,
+        what="INTERRUPT/DESTROY/NOTIFY_REPLY shapes (%s)" % v, bounds="header and 8 body bytes symbolic", functions=SRV_FUNCS, stubs=SRV_STUBS,
+        role="misc:%s" % v)
+for mod in ("readlink", "listxattr"):
+    for v in ["c01", "c02", "c03", "c03_len0", "c03_len8", "c01_nospace"] + (["c01_devfail"] if mod == "readlink" else ["c01_trunc"]):
+        reg_op(OPS_A, mod, v, "request bytes; reply payload of 0/3/8 symbolic bytes (length concrete per instance) or a count", quick=False)
+
+OPS_B = "harness/model/srvsync__ops_b.rs"
+NVARIANTS = ["c01", "c02", "c02_l8", "c01_lenlow", "c01_lenhigh", "c01_noname", "c01_badname_tiny",
+             "c01_ans", "c03", "c01_nospace", "c01_tiny", "c01_devfail"]
+QUICK_B = {("lookup", "c01"), ("lookup", "c02"), ("lookup", "c03"), ("create", "c01_ans"), ("create", "c02"), ("create", "c03"),
+           ("rename2", "c02"), ("symlink", "c01"), ("mknod", "c03"), ("unlink", "c01_lenlow"), ("mkdir", "c01_lenhigh")}
+NDESC = ("structure bytes symbolic; name area 4 (c02_l8: 8) bytes: symbolic (any content: names of length 0..3, interior/missing NUL) "
+         "with a plain success answer in c01/c02/c01_len*/c01_noname/c01_badname_tiny, fixed name with a symbolic answer in c01_ans/c03/"
+         "c01_nospace/c01_tiny/c01_devfail (the product exceeded 16 GB); in_header.len concrete per instance")
+for op in ["lookup", "mknod", "mkdir", "unlink", "rmdir", "link", "create", "removexattr", "symlink", "rename", "rename2"]:
+    for v in NVARIANTS:
+        reg_op(OPS_B, op, v, NDESC, quick=(op, v) in QUICK_B,
+               stubs=SRV_STUBS + ["CStr::from_bytes_with_nul -> std's body with memchr replaced by a naive first-NUL loop (std's word-at-a-time memchr depends on pointer alignment)"])
+for v in ["c03_minor3", "c03_minor4"]:
+    reg(OPS_B, "lookup_neg::" + v, ["C03"], tier="quick", flavour="model", timeout=420, support=MSUP, cost=2,
+        what="LOOKUP negative-entry rule for protocol minor %s" % v[-1], bounds="entry fully symbolic; minor concrete", functions=SRV_FUNCS + ["Server.vers (ArcSwap)"], stubs=SRV_STUBS, role="lookup_neg:C03")
+for v in ["c01", "c02", "c02_l8", "c01_lenlow", "c01_lenhigh", "c01_ans", "c03", "c03_len0", "c03_len8", "c03_count", "c01_nospace", "c01_devfail"]:
+    reg_op(OPS_B, "getxattr_h", v, "structure + 4 (8) name bytes; value of 0/3/8 symbolic bytes (length concrete per instance) or a count; " + NDESC, quick=v in ("c02", "c03"))
+for v in ["c01", "c02", "c02_l8", "c01_lenlow", "c01_lenhigh", "c01_ans", "c03", "c01_tiny", "c01_devfail"]:
+    reg_op(OPS_B, "setxattr_h", v, "structure + 5 (8) bytes of name NUL value (every split); " + NDESC, quick=v in ("c01", "c02"))
